@@ -603,25 +603,24 @@ func cmdBaseline(args []string) {
 		bl := &Baseline{Unclaimed: map[string]string{}, Hints: map[string]string{}}
 		n := 0
 		for _, r := range run.results {
-			if r.Status == "unsat" && r.Solver != "z3-new" && r.Solver != "trivial" && r.Solver != "" {
+			if r.Status == "unsat" && r.Solver != "trivial" && r.Solver != "" && (r.Solver != "z3-new" || r.Seconds >= 1.5) {
+				// also for the default solver when the obligation needed more than the short first attempt: the hint
+				// gives it most of the budget at once instead of after a failed short round of every solver
 				bl.Hints[r.Obl.Name] = r.Solver
 			}
 			if findKnown(known, id, r.Obl.Name) != nil {
 				continue
 			}
-			if r.Status == "unsat" && r.Seconds >= 5.0 && !r.Vacuous {
-				// measured under 16-way contention: time it again on its own before deciding
+			// claimed: discharged in under 4 s when run on its own with the recorded solver first (the quick tier allows
+			// 20 s per obligation, a fivefold margin for a loaded machine)
+			limit := 5.0
+			if r.Status == "unsat" && r.Seconds >= 2.0 && !r.Vacuous {
+				// measured under 16-way contention and possibly after failed attempts of other solvers: time it again
 				solverHints = bl.Hints
-				r2 := solveOne(outDir, run.bgOf[r.Obl], r.Obl, "quick", 6, 0)
+				r2 := solveOne(outDir, run.bgOf[r.Obl], r.Obl, "quick", 20, 0)
 				if r2.Status == "unsat" {
 					r.Seconds = r2.Seconds
 				}
-			}
-			// hysteresis: an obligation the previous baseline did not claim is claimed only when it is clearly fast
-			// (< 3 s alone); one that was claimed stays claimed up to 5 s. Keeps borderline obligations from flipping.
-			limit := 5.0
-			if _, was := old.Unclaimed[r.Obl.Name]; was || old.MinObligations == 0 {
-				limit = 3.0
 			}
 			if r.Status == "unsat" && r.Seconds < limit && !r.Vacuous {
 				n++
